@@ -568,6 +568,26 @@ func (a *auth) powerLevelRules(ev *Ev) (bool, string) {
 				}
 				seen[k] = true
 				o, n := old.notifLevel(k), np.notifLevel(k)
+				if k != "room" {
+					// only "room" has a default; an entry of another key that is added or removed is judged on itself
+					_, had := old.Notifications[k]
+					_, has := np.Notifications[k]
+					if !had && has {
+						if sl < n {
+							return false, "4:pl-notification-raised-above-sender"
+						}
+						continue
+					}
+					if had && !has {
+						if sl < o {
+							return false, "4:pl-notification-above-sender-changed"
+						}
+						if sl == o {
+							a.abstain = true
+						}
+						continue
+					}
+				}
 				if o == n {
 					continue
 				}
